@@ -963,6 +963,77 @@ class SI:
         return _np.dtype('int64')
 
 
+class SIT(SI):
+    """symbolic NumPy integer scalar of a fixed-width dtype narrower than 64 bits (what a min / max / ptp reduction over an integer array returns
+    OUTSIDE compiled code): + - * with another such scalar or a Python int is evaluated in the NumPy result dtype and wraps around
+    (NumPy >= 2 promotion: a Python int operand is weak). Inside Numba-compiled code integer arithmetic is 64-bit, so no typed scalar is made there.
+    The overflow case is a separate path (forked on 'result in range'), so that the common in-range path keeps a linear term."""
+    __slots__ = ('npdt',)
+
+    def __init__(self, t, npdt):
+        self.t = t
+        self.npdt = npdt
+
+    @property
+    def dtype(self):
+        return self.npdt
+
+    def item(self):
+        return SI(self.t)
+
+    def _rdt(self, o):
+        import numpy as _np
+        if isinstance(o, SIT):
+            return _np.result_type(self.npdt, o.npdt)
+        if isinstance(o, (SI, SB)):
+            return None
+        if isinstance(o, bool):
+            return self.npdt
+        if isinstance(o, int):
+            info = _np.iinfo(self.npdt)
+            if not (info.min <= o <= info.max):
+                raise OverflowError("Python integer %d out of bounds for %s" % (o, self.npdt))       # NumPy >= 2
+            return self.npdt
+        if hasattr(o, 'dtype') and getattr(o, 'ndim', 1) == 0 and getattr(o.dtype, 'kind', '') in 'iu':
+            return _np.result_type(self.npdt, o.dtype)
+        return None
+
+    @staticmethod
+    def typed(t, npdt):
+        import numpy as _np
+        npdt = _np.dtype(npdt)
+        if npdt.kind not in 'iu' or npdt.itemsize >= 8:
+            return SI(t)
+        info = _np.iinfo(npdt)
+        lo, hi, m = int(info.min), int(info.max), 1 << (npdt.itemsize * 8)
+        t = z3.simplify(t) if not isinstance(t, int) else z3.IntVal(t)
+        if z3.is_int_value(t):
+            return SIT(z3.IntVal((t.as_long() - lo) % m + lo), npdt)
+        if bool(mkbool(z3.And(t >= lo, t <= hi))):
+            return SIT(t, npdt)
+        return SIT((t - lo) % m + lo, npdt)
+
+    def _ty(self, o, r):
+        if r is NotImplemented or not isinstance(r, SI):
+            return r
+        rdt = self._rdt(o)
+        if rdt is None:
+            return r
+        return SIT.typed(r.t, rdt)
+
+    def __add__(self, o): return self._ty(o, SI.__add__(self, o))
+    __radd__ = __add__
+    def __sub__(self, o): return self._ty(o, SI.__sub__(self, o))
+    def __rsub__(self, o): return self._ty(o, SI.__rsub__(self, o))
+    def __mul__(self, o): return self._ty(o, SI.__mul__(self, o))
+    __rmul__ = __mul__
+    def __neg__(self): return SIT.typed(-self.t, self.npdt)
+    def __abs__(self): return SIT.typed(z3.If(self.t >= 0, self.t, -self.t), self.npdt)
+
+    def __repr__(self):
+        return "SIT(%s, %s)" % (z3.simplify(self.t), self.npdt)
+
+
 def concretize_int(si):
     """fork over the feasible values of a symbolic int (model-guided)."""
     t = z3.simplify(si.t)
